@@ -15,8 +15,10 @@ import (
 	"os"
 	"strings"
 	"sync"
+	"sync/atomic"
 	"testing"
 	"time"
+	"verif.local/vlib/rep"
 
 	"github.com/Dash-Industry-Forum/livesim2/pkg/logging"
 	"verif.local/vlib/ora"
@@ -283,4 +285,65 @@ type vfAns struct {
 func vfAnswer(s *Server, q vfReq) vfAns {
 	r := vfGet(s, q.URL)
 	return vfAns{r.Code, r.Hdr.Get("Content-Type"), vfHash(r.Body), len(r.Body)}
+}
+
+// vfReask is a sample of requests a sequential monitor has already judged (URL, server, body hash of the answer it got). vfReaskAtOnce
+// asks for all of them again from several clients at once, interleaved differently per client: every answer must be the one given
+// alone. Working memory shared between requests (scratch slices, pooled buffers, package-level tables) shows up here and nowhere else
+// in a monitor that otherwise drives one request at a time.
+type vfReask struct {
+	mu   sync.Mutex
+	srv  []*Server
+	urls []string
+	hash []uint64
+	code []int
+	max  int
+}
+
+func (q *vfReask) add(srv *Server, url string, resp vfResp) {
+	q.mu.Lock()
+	defer q.mu.Unlock()
+	if q.max == 0 {
+		q.max = 96
+	}
+	if len(q.urls) >= q.max {
+		// keep a spread: replace a pseudo-random earlier entry now and then
+		i := int(vfHash([]byte(url)) % uint64(4*q.max))
+		if i >= q.max {
+			return
+		}
+		q.srv[i], q.urls[i], q.hash[i], q.code[i] = srv, url, vfHash(resp.Body), resp.Code
+		return
+	}
+	q.srv, q.urls, q.hash, q.code = append(q.srv, srv), append(q.urls, url), append(q.hash, vfHash(resp.Body)), append(q.code, resp.Code)
+}
+
+func vfReaskAtOnce(r *rep.R, q *vfReask, what string) {
+	n := len(q.urls)
+	if n == 0 {
+		return
+	}
+	var wg sync.WaitGroup
+	var bad int32
+	for g := 0; g < 8; g++ {
+		wg.Add(1)
+		go func(g int) {
+			defer wg.Done()
+			for k := 0; k < n; k++ {
+				i := (k*(2*g+1) + g*7) % n
+				resp := vfGet(q.srv[i], q.urls[i])
+				if resp.Code != q.code[i] || vfHash(resp.Body) != q.hash[i] {
+					if atomic.AddInt32(&bad, 1) == 1 {
+						r.Violation("asked-by-eight-clients-at-once:answer-differs-from-the-answer-given-alone:"+what, map[string]any{"url": q.urls[i], "status_alone": q.code[i], "status_now": resp.Code, "clients": 8, "requests_in_the_mix": n})
+					}
+					return
+				}
+			}
+		}(g)
+	}
+	wg.Wait()
+	r.Eval(8 * n)
+	if bad == 0 {
+		r.Class("asked-by-eight-clients-at-once|" + what)
+	}
 }
